@@ -697,7 +697,7 @@ mod os {
 
     use crate::posix;
     use std::collections::HashSet;
-    use std::ffi::OsString;
+    use std::ffi::{CStr, OsString};
     use std::fs::File;
     use std::io::{self, Read, Write};
     use std::os::unix::io::AsRawFd;
@@ -718,6 +718,12 @@ mod os {
                 let child_env = config.env.as_deref().map(format_env);
                 let cmd_to_exec = config.executable.as_ref().unwrap_or(&argv[0]);
                 let just_exec = posix::prep_exec(cmd_to_exec, &argv, child_env.as_deref())?;
+                // The child must not allocate, so the C string needed to
+                // change its directory is prepared before fork() as well.
+                let child_cwd = match config.cwd.as_deref() {
+                    Some(cwd) => Some(posix::os_to_cstring(cwd)?),
+                    None => None,
+                };
                 unsafe {
                     // unsafe because after the call to fork() the
                     // child is not allowed to allocate
@@ -733,7 +739,7 @@ mod os {
                             let result = Popen::do_exec(
                                 just_exec,
                                 child_ends,
-                                config.cwd.as_deref(),
+                                child_cwd.as_deref(),
                                 config.setuid,
                                 config.setgid,
                                 config.setpgid,
@@ -845,7 +851,7 @@ mod os {
         fn do_exec(
             just_exec: impl FnOnce() -> io::Result<()>,
             child_ends: (Option<Rc<File>>, Option<Rc<File>>, Option<Rc<File>>),
-            cwd: Option<&OsStr>,
+            cwd: Option<&CStr>,
             setuid: Option<u32>,
             setgid: Option<u32>,
             setpgid: bool,
@@ -857,13 +863,13 @@ mod os {
         fn do_exec(
             just_exec: impl FnOnce() -> io::Result<()>,
             child_ends: (Option<Rc<File>>, Option<Rc<File>>, Option<Rc<File>>),
-            cwd: Option<&OsStr>,
+            cwd: Option<&CStr>,
             setuid: Option<u32>,
             setgid: Option<u32>,
             setpgid: bool,
         ) -> io::Result<()> {
             if let Some(cwd) = cwd {
-                env::set_current_dir(cwd)?;
+                posix::chdir(cwd)?;
             }
 
             let (stdin, stdout, stderr) = child_ends;
